@@ -34,7 +34,9 @@ class QueueEventPlayer(ConfigPlayer):
         config = self._parse_config(settings, name)
         return config
 
-    def _callback(self, event, s):
+    def _callback(self, event, s, **kwargs):
+        # the queue event hands its kwargs (our args) to the callback
+        del kwargs
         self.machine.events.post(event, **s)
 
     def get_express_config(self, value):
